@@ -149,6 +149,54 @@ pub fn run(ctx: &mut Ctx) {
             k += step;
         }
     }
+    // strings over letters that collide in encodings (lead bytes, low bytes, combining marks)
+    for st in al::s_uni_rich(2) {
+        if !ctx.mine() {
+            continue;
+        }
+        let nonempty = !st.is_empty();
+        for c in ['a', 'ü', '氵', '中', '😁', 'д'] {
+            let p = json!({"===": [{"var": ""}, c.to_string()]});
+            triple(ctx, "string:rich:literal", &json!(st), &p, &d, Some(nonempty));
+            triple(ctx, "string:rich:var", &json!({"var": "str"}), &p, &json!({"str": st}), Some(nonempty));
+        }
+        triple(ctx, "string:rich:log", &json!({"var": "str"}), &json!({"log": {"var": ""}}), &json!({"str": st}), Some(nonempty));
+    }
+    // spelling twins (1 / "1", null / "null", ...) far apart in long collections, type-sensitive predicates
+    for n in al::size_classes(ctx.tier_thorough) {
+        if n > 300 {
+            continue;
+        }
+        if !ctx.mine() {
+            continue;
+        }
+        for (x, y) in al::spelling_twins() {
+            for (first, second) in [(x.clone(), y.clone()), (y.clone(), x.clone())] {
+                let coll: Vec<Value> = (0..n).map(|i| if i == 0 { first.clone() } else if i == n - 1 { second.clone() } else { json!("pad") }).collect();
+                let dd = json!({"coll": coll, "w": second});
+                for p in [json!({"===": [{"var": ""}, {"var": "nope"}]}), json!({"!==": [{"var": ""}, "pad"]}), json!({"in": [{"var": ""}, [second.clone()]]})] {
+                    triple(ctx, "size-probe:twins", &json!({"var": "coll"}), &p, &dd, Some(true));
+                }
+                // the predicate distinguishes the twin by strict equality with a literal of the second's type
+                if !al::is_operation_shaped(&second) {
+                    triple(ctx, "size-probe:twins:strict", &json!({"var": "coll"}), &json!({"===": [{"var": ""}, second.clone()]}), &dd, Some(true));
+                }
+            }
+        }
+    }
+    // numeric boundary elements with type- and value-sensitive predicates
+    {
+        let nums = al::numbers_small();
+        for t in al::tuples(&nums, 2) {
+            if !ctx.mine() {
+                continue;
+            }
+            let dd = json!({"coll": t});
+            for p in [json!({"===": [{"var": ""}, 9007199254740992u64]}), json!({"<": [{"var": ""}, 9007199254740993u64]}), json!({"var": ""}), json!({"in": [{"var": ""}, [1, 9223372036854775808u64]]})] {
+                triple(ctx, "numeric-boundary", &json!({"var": "coll"}), &p, &dd, Some(true));
+            }
+        }
+    }
     // null, empty and non-collections
     if ctx.mine() {
         let colls = vec![
